@@ -8,6 +8,7 @@
   counters, ALL packets within the protocol bounds — no enumeration.
 -/
 import NdnVerif.C10.LemmasTx
+import NdnVerif.C10.LemmasRx
 namespace Ndn.C10
 open Ndn.Gen.C10 (lpPacketOverhead fragmentOverhead sequenceOverhead fragIndexCountOverhead
   incomingFaceIdOverhead congestionMarkOverhead)
@@ -158,5 +159,104 @@ example (w : Bytes) (hw : w.length = 300) : 2 ≤ (sendPacket { mtu := 128 } {} 
     simp [innerLen, wholeOf, hdrOf, headerOf, congestionStep, tokLen, hw] at h
     omega
   · exact h
+
+/-- a valid unfragmented LpPacket as the receiver sees it -/
+def SingleOk (validL3 : Bytes → Bool) (s : Frame) : Prop :=
+  s.seq = none ∧ s.idx = none ∧ s.cnt = none ∧ s.frag ≠ [] ∧ validL3 s.frag = true
+
+/-- **C10, reassembly under any interleaving (decoded-frame level).**
+    `msgs`: ANY number of fragmented messages in flight — each with 2..maxFragments non-empty
+    fragments numbered base+i (mod 2^64), FragIndex i, FragCount n, all frames carrying the message's
+    token and mark — whose base sequence numbers are pairwise different (disjoint sequence ranges);
+    `singles`: any unfragmented frames.  `arrivals`: ANY permutation of all these frames (any order,
+    any interleaving of the messages).  Then the receiving link service, starting with an empty
+    store, delivers — as a multiset — exactly one packet per message: the concatenation of its
+    fragments in index order, with the message's PIT token and congestion mark, plus the payload
+    of every unfragmented frame; nothing else is delivered, nothing is delivered twice, and the
+    partial message store is empty again afterwards.  (Induction over the arrival sequence with the
+    store invariant `StoreInv`; sequence arithmetic modulo 2^64.) -/
+theorem reassemble_any_interleaving_frames (msgs : List FMsg) (singles arrivals : List Frame)
+    (validL3 : Bytes → Bool)
+    (hwf : ∀ m ∈ msgs, m.WF) (hdisjoint : (msgs.map FMsg.base).Nodup)
+    (hvalid : ∀ m ∈ msgs, validL3 m.parts.flatten = true)
+    (hsingles : ∀ s ∈ singles, SingleOk validL3 s)
+    (harr : arrivals.Perm (msgs.flatMap FMsg.frames ++ singles)) :
+    (deliveries (rxRunF true validL3 [] arrivals).2).Perm
+        (msgs.map FMsg.delivery ++ singles.map singleDelivery) ∧
+    ∀ b, (rxRunF true validL3 [] arrivals).1.find? b = none := by
+  have hsingle_notfrag : ∀ s ∈ singles, isFragFrame s = false := by
+    intro s hs; simp [isFragFrame, (hsingles s hs).1]
+  have hfragall : ∀ f ∈ msgs.flatMap FMsg.frames, isFragFrame f = true := by
+    intro f hf
+    obtain ⟨m, _, hfm⟩ := List.mem_flatMap.mp hf
+    obtain ⟨k, _, rfl⟩ := mem_frames.mp hfm
+    exact isFrag_frameAt m k
+  -- every arrival is a fragment of a message in flight or a valid single frame
+  have hA : ∀ f ∈ arrivals, Arrival msgs validL3 f := by
+    intro f hf
+    rcases List.mem_append.mp (harr.mem_iff.mp hf) with h | h
+    · left
+      obtain ⟨m, hm, hfm⟩ := List.mem_flatMap.mp h
+      obtain ⟨k, hk, rfl⟩ := mem_frames.mp hfm
+      exact ⟨m, hm, k, hk, rfl⟩
+    · right; exact hsingles f h
+  -- every fragment arrives exactly once
+  have hfilterF : (msgs.flatMap FMsg.frames ++ singles).filter isFragFrame = msgs.flatMap FMsg.frames := by
+    rw [List.filter_append, List.filter_eq_self.mpr hfragall]
+    have : singles.filter isFragFrame = [] := by
+      rw [List.filter_eq_nil_iff]; intro s hs; simp [hsingle_notfrag s hs]
+    rw [this, List.append_nil]
+  have hN : (arrivals.filter isFragFrame).Nodup := by
+    have hp := harr.filter isFragFrame
+    rw [hfilterF] at hp
+    exact hp.symm.nodup (allFrames_nodup msgs hwf hdisjoint)
+  have hfilterS : (msgs.flatMap FMsg.frames ++ singles).filter (fun f => !isFragFrame f) = singles := by
+    rw [List.filter_append]
+    have h1 : (msgs.flatMap FMsg.frames).filter (fun f => !isFragFrame f) = [] := by
+      rw [List.filter_eq_nil_iff]; intro f hf; simp [hfragall f hf]
+    have h2 : singles.filter (fun f => !isFragFrame f) = singles := by
+      rw [List.filter_eq_self]; intro s hs; simp [hsingle_notfrag s hs]
+    rw [h1, h2, List.nil_append]
+  have hinit : StoreInv msgs [] [] := by
+    refine ⟨?_, fun _ _ => rfl⟩
+    intro m _
+    have : started [] m = false := by simp [started]
+    simp [this, Store.find?]
+  have hD0 : ([] : List Delivered).Perm ((msgs.filter (done [])).map FMsg.delivery ++ []) := by
+    have : msgs.filter (done []) = [] := by
+      rw [List.filter_eq_nil_iff]
+      intro m hm
+      have h2 := (hwf m hm).two_le
+      have : done [] m = false := by
+        cases hd : done [] m with
+        | false => rfl
+        | true => have := (done_iff [] m).mp hd 0 (by omega); simp at this
+      simp [this]
+    simp [this]
+  obtain ⟨hI, hP⟩ := rxRunF_inv msgs hwf hdisjoint validL3 hvalid arrivals [] [] [] [] hinit hA hN
+    (fun _ _ _ => by simp) hD0
+  simp only [List.append_nil, List.nil_append] at hI hP
+  -- at the end every message is complete
+  have hall : ∀ m ∈ msgs, done arrivals.reverse m = true := by
+    intro m hm
+    rw [done_iff]
+    intro k hk
+    have : m.frameAt k ∈ msgs.flatMap FMsg.frames ++ singles :=
+      List.mem_append.mpr (Or.inl (List.mem_flatMap.mpr ⟨m, hm, mem_frames.mpr ⟨k, hk, rfl⟩⟩))
+    exact List.mem_reverse.mpr (harr.mem_iff.mpr this)
+  have hfall : msgs.filter (done arrivals.reverse) = msgs := List.filter_eq_self.mpr hall
+  refine ⟨?_, ?_⟩
+  · rw [hfall] at hP
+    have hs : (arrivals.filter (fun f => !isFragFrame f)).Perm singles := by
+      have := harr.filter (fun f => !isFragFrame f)
+      rwa [hfilterS] at this
+    exact hP.trans ((hs.map singleDelivery).append_left _)
+  · intro b
+    by_cases hb : ∃ m ∈ msgs, m.base = b
+    · obtain ⟨m, hm, rfl⟩ := hb
+      have := hI.1 m hm
+      rw [hall m hm] at this
+      simpa using this
+    · exact hI.2 b (fun m hm h => hb ⟨m, hm, h⟩)
 
 end Ndn.C10
